@@ -9,6 +9,7 @@ import (
 	"pgregory.net/rapid"
 
 	"verif/harness/core"
+	"verif/harness/plugin"
 	"verif/harness/schema"
 )
 
@@ -166,6 +167,10 @@ func init() {
 		Batches: [2]int{1, 10}, PerBatch: [2]int{48, 64}, Cases: [2]int{100, 400},
 		Rule:        "cases = (schema from the contract profile: codec annotations, URL parameters of every kind, headers) x RPC x (request value, response value) x mode {success, handler error -> default response, malformed body -> 400}; the Go client's request body and the Go server's response body are captured on the wire together with the path, query and header values as sent. Oracle: Python jsonschema (Draft 2020-12, $refs resolved in the service's document) against the operation's requestBody / response / parameter schemas, parameters deserialised per the simple/form defaults, plus a walker that reports wire properties no applicable subschema describes; converse: the JSON form of default request/response messages satisfies their component schemas. Non-trivial = annotated request/response type or an error response; distinct by wire traffic.",
 		Assumptions: append([]string{"format is an annotation in 2020-12 and is not asserted", "the TypeScript client's request bodies are validated by C08's runs against the same schemas, not here"}, commonAssumptions...)})
+	registerRuntime(&runtimeCheck{ID: "C08", Profile: schema.ProfileInterop, Inner: []string{"c08"}, Prefix: "i", Prepare: prepareTS,
+		Batches: [2]int{1, 8}, PerBatch: [2]int{32, 48}, Cases: [2]int{40, 200},
+		Rule:        "cases = (schema from the interop profile: routes combining path variables with query parameters, several services per file, service- and method-level headers, codec annotations) x RPC x pair {TS client -> Go server, Go client -> TS server, TS client -> TS server} x (request, response) values restricted to the JSON-representable contract form x header options (raw headers, typed helper properties on client and call options). The emitted .ts modules are imported in Node 22 (load failure = violation); the TS server runs behind node:http with a template-matching dispatcher over its RouteDescriptors; the Go server listens on loopback. Oracle: the handler of the same RPC saw the caller's request and the caller got the handler's response, compared through the message types on the contract JSON form; required headers are validated by the Go server, so a helper that sets another header name yields 400. Non-trivial = route with path variable and query parameter on a bodiless verb, or a typed header helper; distinct by (pair, request, response).",
+		Assumptions: append([]string{"Node's type stripping executes the emitted TypeScript; type errors are invisible (no tsc offline)", "values are limited to |int| <= 2^53 and finite floats: what JavaScript numbers can carry"}, commonAssumptions...)})
 	registerRuntime(&runtimeCheck{ID: "C01", Profile: schema.ProfileTransport, Inner: []string{"c01"}, Prefix: "t",
 		Batches: [2]int{1, 10}, PerBatch: [2]int{64, 64}, Cases: [2]int{150, 500},
 		Rule:        "cases = (schema from the transport profile: verbs, base paths, 0-3 path variables of every URL kind, query parameters, body fields of every kind/cardinality, JSON-mapping annotations) x RPC x (request value incl. reserved URL characters, non-ASCII, numeric extremes; response value) x content type {application/json, application/x-protobuf, application/octet-stream} set per client or per call x base URL with/without trailing slash. The generated Go client calls the generated Go server through an in-memory transport. Oracle: exactly one handler call of the same RPC, norm(sent)==seen, norm(returned)==received (norm only for JSON). Non-trivial = URL-bound value with reserved/non-ASCII characters or >= 9 digits, or a non-JSON content type, or an annotated body; distinct by (RPC, content type, request, response).",
@@ -196,4 +201,41 @@ func prepareOpenAPI(c *core.Ctx, batch int, schemas []*schema.Schema) (map[strin
 		}
 	}
 	return map[string]string{"openapi_dir": dir, "validator_script": filepath.Join(core.Root(), "py", "validate.py")}, nil
+}
+
+// prepareTS emits the TypeScript client and server modules of every schema of a batch.
+func prepareTS(c *core.Ctx, batch int, schemas []*schema.Schema) (map[string]string, error) {
+	dir := filepath.Join(c.Scratch, fmt.Sprintf("ts-%d", batch))
+	for _, s := range schemas {
+		req, err := schema.Request("", s)
+		if err != nil {
+			return nil, err
+		}
+		for _, pl := range []string{plugin.TSClient, plugin.TSServer} {
+			res := c.Plugins.Run(pl, req, plugin.Opts{})
+			if crashed, why := res.Crashed(); crashed {
+				return nil, fmt.Errorf("%s crashed on %s: %s", pl, s.ID, why)
+			}
+			if res.Err() != "" {
+				fmt.Printf("note: schema %s refused by %s (left to C12): %s\n", s.ID, pl, trunc(res.Err(), 200))
+				continue
+			}
+			for name, content := range res.Files() {
+				p := filepath.Join(dir, s.ID, pl, name)
+				if err := os.MkdirAll(filepath.Dir(p), 0o755); err != nil {
+					return nil, err
+				}
+				if err := os.WriteFile(p, []byte(content), 0o644); err != nil {
+					return nil, err
+				}
+			}
+		}
+	}
+	ex, err := prepareOpenAPI(c, batch, schemas)
+	if err != nil {
+		return nil, err
+	}
+	ex["ts_dir"] = dir
+	ex["driver_script"] = filepath.Join(core.Root(), "node", "driver.mjs")
+	return ex, nil
 }
